@@ -23,7 +23,8 @@ RULE = ("metamorphic on the real code (model-free verdict: image of the program 
         "with totals 65535 / 65536 / 65537, empty and 1-byte bodies: equal to the written-out text within the budget, refused beyond it. "
         "(2) files: abstract programs of 1-3 linked files + include files (depth <= 3) made of '.word .+k', .byte, .blkb, .even, insert_file (0-300 "
         "bytes), .include, .end/end, .once; transformations concat-linked-files, insert->.byte (empty insert -> nothing), cut-after-.end in a main / "
-        "linked / included file, include-a-.once-file 1-3 times -> once, paste-included-file, include cycles (self / mutual) behind '.once' = the same without the back edge, and without '.once' = refused with "
+        "linked / included file ('.end' / 'end' in every letter case, followed by the rest of the file, by nothing, or by text that is not assembly: "
+        "unterminated quotes, unbalanced brackets, half statements, control characters, non-ASCII text, a listing trailer), include-a-.once-file 1-3 times -> once, paste-included-file, include cycles (self / mutual) behind '.once' = the same without the back edge, and without '.once' = refused with "
         "'recursive-include'; both programs through Model/Structure in Coq. "
         "(2b) '.once' by every route, on REAL files in a scratch directory (path handling goes through os.path): a '.once' file reached 2-3 times "
         "by any mix of: given as a linked file (before / after main / listed twice), '.include'd directly, inside a '.repeat', or through a nested "
@@ -254,6 +255,38 @@ def repeat_family(rep, rng, n_cases, n_end, with_model=True, label="repeat", all
 
 
 # ------------------------------------------------------------------------------------------------
+# '.end' in every spelling, followed by text that is not assembly
+END_SPELLINGS = [".end", "end", ".END", "END", ".End", "End", ".eNd", "eND", ".enD"]
+GARBAGE = ['"an unterminated string', "'", "((( unbalanced", "< a + ", "}", "} } {", "mov r0,", ".word", ".repeat 3 {", "1 +", "= 5", ":::",
+           "\x0c\n  3 errors detected", "Errors detected: 0\n*** Assembler statistics\n  Work file reads: 0", "\u043f\u0440\u0438\u0432\u0435\u0442 \u00a9 \u2122",
+           "\x01\x02\x7f", "^Rtoolongradix", "#@#", ".include \"nowhere.mac\"", "insert_file \"nowhere.bin\"", "label: label: label:", "\t\t;; only a comment",
+           ".end\n.end", "9999999999999999999999 8 9", "\\ \\n \\x"]
+
+
+def end_with_tail(rng, clean_tail=""):
+    """the directive in some spelling and, after it, text that must not matter"""
+    r = rng
+    sp = r.choice(END_SPELLINGS)
+    c = r.random()
+    if c < 0.25:
+        tail = clean_tail
+    elif c < 0.85:
+        lines = [r.choice(GARBAGE) for _ in range(r.choice([1, 1, 2, 3]))]
+        # statements are not line-terminated in this grammar: a ':' or '=' that opens the next line turns the
+        # directive into the label '.end:' / the definition 'end = ...' (reported candidate, see probe_end_colon)
+        while lines[0].lstrip()[:1] in tuple(":=^+-*/%&|!_,"):     # also a leading infix operator continues 'end' as an expression
+            lines[0] = r.choice(GARBAGE)
+        tail = "\n".join(lines) + ("\n" if r.random() < 0.7 else "")
+        if r.random() < 0.3:
+            tail += clean_tail
+    else:
+        tail = ""
+    if r.random() < 0.15:
+        sp += " ; " + r.choice(["done", '"', "("])
+    return sp + ("\n" + tail if (tail or r.random() < 0.8) else "")
+
+
+# ------------------------------------------------------------------------------------------------
 # (2) abstract file structures, with Model/Structure
 class SProg:
     def __init__(self, files, ids, base, blobs=None):
@@ -402,7 +435,7 @@ def transform_sprog(rng, want):
         else:
             fid = r.choice(inc_ids)
         pos = r.randrange(len(p.files[fid]) + 1)
-        p.files[fid] = p.files[fid][:pos] + [("end", r.choice([".end", "end"]))] + p.files[fid][pos:]
+        p.files[fid] = p.files[fid][:pos] + [("end", end_with_tail(r).rstrip("\n"))] + p.files[fid][pos:]
         q = p.clone()
         q.files[fid] = p.files[fid][:pos]
         return "end-" + where, p, q
@@ -653,8 +686,7 @@ def rich_family(rep, rng, n_progs):
         fi = rng.randrange(len(p.files))
         stmts = p.stmts[fi]
         pos = rng.randrange(len(stmts) + 1)
-        sp = rng.choice([".end", "end"])
-        with_end = p.files[:fi] + [(p.files[fi][0], _join(stmts[:pos]) + sp + "\n" + _join(stmts[pos:]))] + p.files[fi + 1:]
+        with_end = p.files[:fi] + [(p.files[fi][0], _join(stmts[:pos]) + end_with_tail(rng, _join(stmts[pos:])))] + p.files[fi + 1:]
         cut = p.files[:fi] + [(p.files[fi][0], _join(stmts[:pos]))] + p.files[fi + 1:]
         add("end-main" if fi == 0 else "end-linked", with_end, cut, fs)
         # includes
@@ -666,7 +698,7 @@ def rich_family(rep, rng, n_progs):
             # .end inside the included file: the includer continues
             pos = rng.randrange(len(body) + 1)
             fs_end = dict(fs)
-            fs_end[path] = _join(body[:pos]) + sp + "\n" + _join(body[pos:])
+            fs_end[path] = _join(body[:pos]) + end_with_tail(rng, _join(body[pos:]))
             fs_cut = dict(fs)
             fs_cut[path] = _join(body[:pos])
             pairs.append((p.files, p.files, None))
@@ -760,7 +792,8 @@ def budget_family(rep, quick):
              ("nested", side, side - 1, ".byte 7"),                               # 256 + 256*255 = 65536: the last one allowed
              ("nested", side, side, ".byte 7")]                                   # 256 + 256*256: refused
     if not quick:
-        cases += [("nested", side - 1, side, ""), ("nested", side, side - 1, ""), ("nested", side, side, ""), ("flat", m + 1, None, ".byte 7")]
+        # (no flat 1-byte case beyond the budget: its written-out text would be a 64 KiB + 1 image, refused for its size)
+        cases += [("nested", side - 1, side, ""), ("nested", side, side - 1, ""), ("nested", side, side, "")]
     pairs, metas = [], []
     for shape, n1, n2, stmt in cases:
         body = (stmt + "\n") if stmt else ""
@@ -1253,6 +1286,7 @@ def explore(rep, br, tier, seed):
         err = err or ex
     rich_family(rep, rng, 60 if quick else 1200)
     probe_dot_assign(rep)
+    probe_end_colon(rep)
     rep.notes.append("repeat/unroll and the five file transformations are judged on the implementation alone; the Coq judge repeats the comparison "
                      "of the two observed images and checks both against the models")
     if err is not None:
@@ -1266,6 +1300,21 @@ def explore(rep, br, tier, seed):
 
 
 KNOWN_END = "end-inside-repeat"
+
+
+def probe_end_colon(rep):
+    """reported candidate, outside the generated domain: '.end' followed by a line that starts with ':' or '=' is read as
+    the label '.end:' / the definition '.end = ...' (a statement may continue on the next line), so the tail is NOT discarded"""
+    res = []
+    for sp, tail in ((".end", ":::\n"), (".end", "= 5\n.word 7\n"), ("end", "^Rabc\n")):
+        a = impl.assemble([("t.mac", ".word 1\n" + sp + "\n" + tail)])
+        b = impl.assemble([("t.mac", ".word 1\n")])
+        rep.add_eval(2)
+        res.append(view(a) != view(b))
+    rep.count("probe:end-then-colon-or-equals:" + ("differs" if any(res) else "same"))
+    if any(res):
+        rep.notes.append("candidate (not judged): '.word 1 / .end / :::' and '.word 1 / .end / = 5 / .word 7' (also 'end / ^Rabc') do not assemble to what '.word 1' "
+                         "assembles to: the next line's ':' / '=' / infix operator makes the directive a label / a definition / an expression")
 
 
 def probe_dot_assign(rep):
